@@ -128,6 +128,13 @@ def check_props_file(pid):
     src = open(path).read()
     theorems = re.findall(r"^(?:Theorem|Corollary)\s+(\w+)", src, re.M)
     rc, out = sh("timeout 1200 coqc -Q . OgRek Props/%s.v" % pid, cwd=COQ)
+    # the theorems count only if every file they depend on was compiled from its CURRENT source: a regenerated
+    # Gen/*.v or an edited proof file that fails to build leaves its old .vo behind, which coqc would load
+    rq, oq = sh("make -q Props/%s.vo" % pid, cwd=COQ)
+    if rc == 0 and rq != 0:
+        rb, ob = sh("timeout 3000 make -k Props/%s.vo" % pid, cwd=COQ)
+        if rb != 0:
+            return False, theorems, out + "\n[stale dependency] a file Props/%s.v depends on does not build from its current source:\n%s" % (pid, ob[-2500:])
     return rc == 0, theorems, out
 
 FORBIDDEN = re.compile(r"\b(Admitted|admit|Axiom|Parameter|Conjecture|Admit Obligations|bypass_check|"
